@@ -582,6 +582,7 @@ class RunMonitor:
             z = o_imp(b, f_base, f_new, s_base, s_new, q)
             if b is mon.bads and mon.cur_poll is not None:
                 mon.cur_poll["imps"].append((len(mon.cur_poll["evals"]), copy.copy(z), f_base, f_new))
+                mon.cur_poll["imp_args"].append((len(mon.cur_poll["evals"]), f_new, s_new))
             if b is mon.bads and mon.cur_poll is None and mon.cur_search is None and np.ndim(f_new) == 0:
                 # loop-body call with scalar arguments = the historic (stall) improvement;
                 # the re-estimation call that follows it in noisy modes passes arrays
@@ -617,7 +618,7 @@ class RunMonitor:
     def _poll_enter(self, b):
         o = b.options
         st = {
-            "id": len(self.polls), "evals": [], "imps": [], "gens": [],
+            "id": len(self.polls), "evals": [], "imps": [], "gens": [], "adds": [], "imp_args": [],
             "k0": int(b.mesh_size_integer), "u0": np.array(b.u, float, copy=True).ravel(),
             "fval0": b.fval, "fsd0": b.fsd, "yval0": b.yval, "iter": int(b.optim_state["iter"]),
             "suff": float(np.asarray(b.sufficient_improvement)), "mesh": float(b.optim_state["mesh_size"]),
@@ -707,6 +708,34 @@ class RunMonitor:
                     self.v("C13/mesh-not-power-of-two", mesh=b.mesh_size, k=k1, where="poll-exit")
                 if k1 > cap:
                     self.v("C13/mesh-above-cap", k=k1, cap=cap)
+        # ----- noisy modes: success must be judged on the GP ESTIMATE at the polled point, not on the raw observation
+        if "C13" in self.want and not det and not o["stobads"] and pairing_ok and ne:
+            adds = {n_ev: (m_, s_) for (n_ev, m_, s_) in st["adds"]}
+            for j in range(ne):
+                n_ev, f_new, s_new = st["imp_args"][j]
+                self.c("C13.noisy_poll_evals_checked")
+                if (j + 1) not in adds:
+                    y_raw = st["evals"][j].get("y")
+                    try:
+                        fn0, sn0 = float(np.asarray(f_new).ravel()[0]), float(np.asarray(s_new).ravel()[0])
+                    except Exception:
+                        fn0, sn0 = None, None
+                    if y_raw is not None and fn0 == y_raw and sn0 == 0.0:
+                        # direct evidence: the value fed to the success test IS the raw observation, with zero SD
+                        self.v("C13/noisy-poll-not-judged-on-gp-estimate", used_value=fn0, used_sd=sn0, raw_observation=y_raw, equals_raw=True,
+                               gp_update_observed=False)
+                    else:
+                        self.struct("noisy-poll-evaluation-without-observed-gp-update")
+                    continue
+                m_, s_ = adds[j + 1]
+                try:
+                    fn, sn = float(np.asarray(f_new).ravel()[0]), float(np.asarray(s_new).ravel()[0])
+                except Exception:
+                    continue
+                if not (abs(fn - m_) <= 1e-9 * max(1.0, abs(m_)) and abs(sn - s_) <= 1e-9 * max(1.0, abs(s_))):
+                    y_raw = st["evals"][j].get("y")
+                    self.v("C13/noisy-poll-not-judged-on-gp-estimate", used_value=fn, used_sd=sn, gp_mean=m_, gp_sd=s_, raw_observation=y_raw,
+                           equals_raw=bool(y_raw is not None and fn == y_raw))
         # ----- C14 (b): polled points vs generated directions
         if "C14" in self.want:
             self.c("C14.poll_steps")
@@ -1074,14 +1103,13 @@ class RunMonitor:
 
         patch.set(bb, "init_and_train_gp", init_gp)
 
-        if "C15" not in self.want:
-            return
+        c15 = "C15" in self.want
 
         o_nb = gpt.get_grid_search_neighbors
 
         def nb(function_logger, u, gp, options, optim_state):
             out = o_nb(function_logger, u, gp, options, optim_state)
-            if function_logger is mon.fl:
+            if function_logger is mon.fl and c15:
                 mon.last_neighbors = (np.array(out[0], copy=True), np.array(out[1], copy=True), None if out[2] is None else np.array(out[2], copy=True))
                 mon._after_neighbors(function_logger, u, gp, options, optim_state, out)
             return out
@@ -1092,10 +1120,10 @@ class RunMonitor:
 
         def loc(gp, current_point, function_logger, options, optim_state, iteration_history, refit_flag):
             mon.last_neighbors = None
-            if function_logger is mon.fl:
+            if function_logger is mon.fl and c15:
                 mon._check_reference_point(current_point, iteration_history)
             out = o_loc(gp, current_point, function_logger, options, optim_state, iteration_history, refit_flag)
-            if function_logger is mon.fl:
+            if function_logger is mon.fl and c15:
                 g = out[0]
                 mon.c("C15.local_fit_exits")
                 mon._check_gp_holds_selected_set(g, refit_flag)
@@ -1113,7 +1141,13 @@ class RunMonitor:
         def add(function_logger, gp, x_new, y_new, sd_new=None, options=None):
             n0 = gp.X.shape[0]
             out = o_add(function_logger, gp, x_new, y_new, sd_new, options)
-            if function_logger is mon.fl:
+            if function_logger is mon.fl and mon.cur_poll is not None and "C13" in mon.want:
+                try:
+                    mu_, s2_ = out.predict(np.atleast_2d(x_new))
+                    mon.cur_poll["adds"].append((len(mon.cur_poll["evals"]), float(np.asarray(mu_).ravel()[0]), float(np.sqrt(np.asarray(s2_).ravel()[0]))))
+                except Exception:
+                    pass
+            if function_logger is mon.fl and c15:
                 mon.c("C15.add_exits")
                 g = out
                 if g.X.shape[0] != n0 + 1:
